@@ -230,9 +230,9 @@ CFG = {
              "out-of-range arguments. The Coq model evaluates both trees (oracle). non-trivial = at least one operation node "
              "and a non-empty value; distinct = by hash of the case"),
     "theorem_names": ["nf_closed_constructors", "nf_closed", "builder_nf_units", "nf_closed_trees", "constructors_eq_spec",
-                      "strop_eq_spec_partial", "concat_eq_spec_refuted", "strict_equals_sound", "strict_equals_partial",
-                      "strict_equals_refuted", "key_hash_agree", "compare_eq_spec", "lex_order", "export_eq_partial",
-                      "export_eq_refuted"],
+                      "strop_eq_spec", "concat_fast_path_sound", "builtins_eq_spec", "tree_eq_spec", "eq_hash_key_agree",
+                      "compare_eq_spec", "lex_order", "utf8_roundtrip", "utf16_roundtrip", "export_eq", "export_eq_refuted",
+                      "equal_trees_indistinguishable", "different_trees_ordered"],
     "allowed_axioms": [],
     "trusted_base": [
         "Coq 8.16.1 kernel + vm_compute (no native_compute); theorems closed under the global context (no axioms)",
@@ -246,23 +246,28 @@ CFG = {
     ],
     "manifest": {
         "text": ("proof: over a Gallina transcription of goja's three string representations (asciiString, unicodeString, "
-                 "importedString with its lazy scan) it is proved, for ALL strings, that every constructor, Concat, Substring, the "
-                 "unicodeStringBuilder and every expression tree over the string builtins yield a normal-form representation "
-                 "(nf_closed*, nf_closed_trees); that Concat/Substring/CharAt/Length act on the UTF-16 units (lone surrogates are "
-                 "plain units); that === implies equal units for all 9 representation pairs and is exactly unit equality for 8 of "
-                 "them; that property keys and hash input coincide iff the units coincide for all 9 pairs (0xFEFF marker "
-                 "argument); that CompareTo is the lexicographic unit order for all 9 pairs; that Export is UTF-8 of the units "
-                 "for ascii/unicode strings. 15 theorems, no axioms. Where the faithful model refutes the full statement "
-                 "(imported x imported ===, unscanned+unscanned Concat, Export of an importedString with invalid UTF-8: F19) a "
-                 "_refuted witness and a _partial theorem with an explicit guard are proved instead. The model is tied to /repo "
-                 "on every run: 4000 (quick) / 300000 (thorough) pairs of expression trees are evaluated in goja and by the "
-                 "model (vm_compute); length, every charCodeAt, Export bytes, interchangeability with a literal, and per pair "
-                 "===, ==, Object.is, <, >, Map key, object key and hash are compared with the unit-list oracle S; "
-                 "disagreements are classified against the transcription I."),
+                 "importedString with its lazy scan) it is proved, for ALL strings and all byte contents of Go strings (valid "
+                 "UTF-8 or not), that every constructor, Concat, Substring, the unicodeStringBuilder and every expression tree "
+                 "over the string builtins yield a normal-form representation (nf_closed*, nf_closed_trees); that Concat (all 9 "
+                 "pairs incl. the byte-joining fast path of two unscanned imported strings, whose guard is proved sufficient), "
+                 "Substring, CharAt, Length, slice/substring/substr/at/charAt, repeat, padStart/padEnd, template literals, trim* "
+                 "and ASCII case mapping act on the UTF-16 units exactly as the spec functions (strop_eq_spec, builtins_eq_spec, "
+                 "tree_eq_spec: lone surrogates are plain units and are preserved); that ===, SameValue, ==, property key, hash "
+                 "input, Map lookup and object-key lookup are each EXACTLY equality of units for all 9 representation pairs "
+                 "(eq_hash_key_agree, 0xFEFF marker argument for keys); that CompareTo is the lexicographic unit order for all 9 "
+                 "pairs; that Export is the UTF-8 of the units for ascii/unicode strings and importedStrings holding valid "
+                 "UTF-8 (via a proved UTF-8 and UTF-16 round trip); and end to end that two JSON-free expression trees with the "
+                 "same reference value are indistinguishable through every modelled observable (equal_trees_indistinguishable). "
+                 "18 theorems, no axioms. One statement is still refuted by the faithful model and kept as such: Export of an "
+                 "importedString with invalid UTF-8 returns the raw bytes (export_eq_refuted, open finding F19, API behaviour). "
+                 "The model is tied to /repo on every run: 4000 (quick) / 300000 (thorough) pairs of expression trees are "
+                 "evaluated in goja and by the model (vm_compute); length, every charCodeAt, Export bytes, interchangeability "
+                 "with a literal, and per pair ===, ==, Object.is, <, >, Map key, object key and hash are compared with the "
+                 "unit-list oracle S; disagreements are classified against the transcription I."),
         "note": ("trusted: Coq kernel + vm_compute; the hand transcription coq/C06/Model.v (the 0xFEFF slot is the constructor tag; "
                  "importedString.u is a function of (s, scanned); mutation of the scanned flag is not modelled, results are proved "
                  "independent of it); x/text case mapping is modelled only on ASCII letters (alphabet chosen case-neutral), "
-                 "encoding/json's decoder only through its effect on a quoted string; maphash by its input bytes; the Go harness "
+                 "encoding/json's decoder only through its effect on a quoted string (JSON nodes are outside tree_eq_spec; JSON.parse of an escaped lone surrogate is open finding F62); maphash by its input bytes; the Go harness "
                  "and verif_hooks.go; the implementation is covered by correspondence on generated trees, not by proof"),
         "technique": "Rocq proof over a transcription of goja's three string representations + differential correspondence against /repo via vm_compute",
     },
